@@ -1,0 +1,96 @@
+//! Observation hooks for external verification harnesses.
+//!
+//! Everything in this module is compiled only with `--cfg vibrato_verif`.
+//! The hooks only read state; they never change the behaviour of the library.
+#![allow(missing_docs)]
+
+use std::cell::RefCell;
+
+pub use crate::dictionary::connector::verif::{scorer_roundtrip_table, scorer_table};
+
+use crate::dictionary::connector::{Connector, ConnectorCost, ConnectorWrapper};
+use crate::dictionary::{Dictionary, LexType};
+use crate::tokenizer::worker::Worker;
+
+thread_local! {
+    static YIELD_HOOK: RefCell<Option<Box<dyn FnMut(&'static str)>>> = const { RefCell::new(None) };
+}
+
+/// Installs (or removes) the scheduling callback of the calling thread.
+pub fn set_yield_hook(hook: Option<Box<dyn FnMut(&'static str)>>) {
+    YIELD_HOOK.with(|h| *h.borrow_mut() = hook);
+}
+
+/// A scheduling point. No-op unless the calling thread installed a callback.
+#[inline]
+pub fn yield_point(site: &'static str) {
+    YIELD_HOOK.with(|h| {
+        if let Ok(mut h) = h.try_borrow_mut() {
+            if let Some(f) = h.as_mut() {
+                f(site);
+            }
+        }
+    });
+}
+
+/// A node of the lattice as seen by the verification harness.
+#[derive(Clone, Debug, PartialEq, Eq)]
+pub struct VerifNode {
+    pub end: usize,
+    pub start_node: usize,
+    pub start_word: usize,
+    pub lex_type: LexType,
+    pub word_id: u32,
+    pub left_id: u16,
+    pub right_id: u16,
+    pub min_idx: u16,
+    pub min_cost: i32,
+}
+
+/// A dump of the lattice: per end boundary the nodes in insertion order (BOS excluded), and EOS.
+#[derive(Clone, Debug, PartialEq, Eq, Default)]
+pub struct VerifLattice {
+    pub len_char: usize,
+    pub ends: Vec<Vec<VerifNode>>,
+    pub eos: Option<VerifNode>,
+}
+
+impl Worker<'_> {
+    /// Dumps the lattice built by the last `tokenize()`.
+    pub fn verif_lattice(&self) -> VerifLattice {
+        self.lattice.verif_dump()
+    }
+}
+
+impl Dictionary {
+    /// Connection cost between a right id and a left id.
+    pub fn verif_conn_cost(&self, right_id: u16, left_id: u16) -> i32 {
+        match self.connector() {
+            ConnectorWrapper::Matrix(c) => c.cost(right_id, left_id),
+            ConnectorWrapper::Raw(c) => c.cost(right_id, left_id),
+            ConnectorWrapper::Dual(c) => c.cost(right_id, left_id),
+        }
+    }
+
+    /// (number of right ids, number of left ids) of the connector.
+    pub fn verif_conn_dims(&self) -> (usize, usize) {
+        (self.connector().num_right(), self.connector().num_left())
+    }
+
+    /// (category id set, primary category id, invoke, group, length) of a character.
+    pub fn verif_char_info(&self, c: char) -> (u32, u32, bool, bool, u16) {
+        let ci = self.char_prop().char_info(c);
+        (
+            ci.cate_idset(),
+            ci.base_id(),
+            ci.invoke(),
+            ci.group(),
+            ci.length(),
+        )
+    }
+
+    /// Category names indexed by category id.
+    pub fn verif_categories(&self) -> Vec<String> {
+        self.char_prop().verif_category_names().to_vec()
+    }
+}
